@@ -592,7 +592,9 @@ class World(object):
             r.src_data = arg.id
             doc_probe(value, self.probes)
         # P3: no mutable state shared between a result and anything else that is live
-        self.check_sharing(r, arg, name, mode)
+        # (not for a document the harness scribbled on: garbage in, garbage out is not a purity violation)
+        if not op.get("malformed"):
+            self.check_sharing(r, arg, name, mode)
         return r
 
     def check_sharing(self, r, arg, name, mode):
